@@ -389,6 +389,58 @@ static void op_memset()
       }
 }
 
+// ---- a sandbox object destroyed and created again with another memory size -------------------------
+// "extents larger than the sandbox never proceed" is about the incarnation that is alive now, whatever the object was before.
+static void op_reincarnation()
+{
+#ifndef C10_SINGLE
+  struct Inc { uint64_t first, second; };
+  const uint64_t start = 16;
+  for (Inc inc : { Inc{ kSize, 4096 }, Inc{ 4096, kSize }, Inc{ 8192, 4096 }, Inc{ 4096, 4096 } })
+    for (int warm = 0; warm < 2; warm++)
+      for (int op = 0; op < 3; op++)
+        for (uint64_t n : { (uint64_t)1, (uint64_t)4000, inc.second - start, inc.second, inc.second + 1, (uint64_t)8192, inc.first, kSize - start, kSize }) {
+          static const char* opn[] = { "memset", "memcpy", "memcmp" };
+          std::string kase = std::string("reinc|") + std::to_string(inc.first) + "|" + std::to_string(inc.second) + "|" + std::to_string(warm) + "|" + opn[op] + "|" + std::to_string(n);
+          if (!take(kase)) continue;
+          bool must_abort = n > inc.second || start + n > kSize;
+          bool must_proceed = start + n <= inc.second;
+          if (!must_abort && !must_proceed) continue; // ends between the live size and the slot end: the mask-based predicate cannot tell
+          sbx_t r;
+          SB::next_mem_limit() = inc.first;
+          r.create_sandbox(2);
+          auto mk = [&] {
+            tn<char*> p;
+            p.assign_raw_pointer(r, reinterpret_cast<char*>(r.get_sandbox_impl()->base + start));
+            return p;
+          };
+          if (warm) {
+            auto p = mk();
+            (void)guarded([&] { rlbox::memset(r, p, 1, 8u); rlbox::memcpy(r, p, reinterpret_cast<const char*>(g_arena), 8u); (void)rlbox::memcmp(r, p, reinterpret_cast<const char*>(g_arena), 8u); });
+          }
+          r.destroy_sandbox();
+          SB::next_mem_limit() = inc.second;
+          r.create_sandbox(2);
+          auto p = mk();
+          Out o = O_RET;
+          if (op == 0) o = guarded([&] { rlbox::memset(r, p, 0x5C, (size_t)n); });
+          else if (op == 1) o = guarded([&] { rlbox::memcpy(r, p, reinterpret_cast<const char*>(g_arena), (size_t)n); });
+          else o = guarded([&] { (void)rlbox::memcmp(r, p, reinterpret_cast<const char*>(g_arena), (size_t)n); });
+          n_eval++;
+          n_nontriv++;
+          std::string sg = "C10 mode=" + std::string(kMode) + " op=" + opn[op] + "(re-created sandbox)";
+          std::string ex = "object first created with " + std::to_string(inc.first) + " bytes" + (warm ? " and used" : "") + ", destroyed, created again with " + std::to_string(inc.second) + " bytes; extent " + std::to_string(n) + " at offset 16";
+          if (must_abort && o == O_RET) viol(sg + " kind=extent-larger-than-the-live-sandbox-proceeded", kase, ex);
+          else if (must_abort && o == O_CRASH) viol(sg + " kind=crash", kase, ex);
+          else if (must_proceed && o != O_RET) viol(sg + " kind=refused", kase, "valid request ended in " + std::string(on(o)) + ": " + ex);
+          (void)guarded([&] { r.destroy_sandbox(); });
+          SB::next_mem_limit() = 0;
+          fill();
+          reset_changed();
+        }
+#endif
+}
+
 // ---- memcpy / memcmp ------------------------------------------------------------------------------
 static void op_memcpy_memcmp()
 {
@@ -813,6 +865,7 @@ int main(int argc, char** argv)
     return false;
   };
   if (want({ "memset" })) op_memset();
+  if (want({ "reinc" })) op_reincarnation();
   if (want({ "memcpy-tt", "memcmp-tt", "memcpy-tr", "memcmp-tr" })) op_memcpy_memcmp();
   if (want({ "cavr", "cavba", "uspb", "cavr-cell", "cavba-cell", "uspb-cell" })) {
     op_range_variants<char>();
